@@ -131,6 +131,7 @@ theorem exec_buildRow_moves (n : Nat) (b l : String) (trigs : List TriggerDef) (
       have e1 : unquoteQualified (Value.text "moves_seq_seq").toText = "moves_seq_seq" := by decide
       have e2 : (firstDotted "moves_seq_seq").isEmpty = true := by decide
       simp [seqName, e1, e2, qualify, mvSeqFull]
+    rw [evalExpr_call _ _ _ _ _ _ (by decide)]
     simp only [evalExpr, evalExprs, exec_bind, exec_pure, hpure, hcall,
       show (("" : String).isEmpty || "" == "public" || "" == "pg_catalog") = true from by decide, if_true]
     rw [callFunc]
